@@ -89,6 +89,11 @@ func (c03) Gen(r *simrt.Rand, idx int, tier string) *Case {
 		c.Sub += "+remap"
 	}
 	c.Args = f.Args()
+	if r.P(0.1) && !hasAccount(c.J, "Equity:Opening") {
+		// closing (and nothing else) creates Equity:Equity; the filters were drawn with the old name
+		c.J.RenameAccount("Equity:Equity", "Equity:Opening")
+		Ctr.Probes["c03.no-equity-equity"]++
+	}
 	c.Scheds = []Sched{RandSched(r)}
 	if idx%3 == 0 {
 		c.Scheds = append(c.Scheds, RandSched(r))
